@@ -754,22 +754,24 @@ class Mps(MatrixProduct):
             p_max = 2.0  # safeguard for maximal allowed p
             
             evolved_dt = 0
-            new_mps = self
+            # the last accepted state. A copy, because its ``guess_dt`` is updated when a step is rejected
+            new_mps = self.copy()
 
             while True:
                 dt = min_abs(new_mps.evolve_config.guess_dt, evolve_dt-evolved_dt)
                 logger.debug(f"guess_dt: {new_mps.evolve_config.guess_dt}, try time step size: {dt}")
-                new_mps, error = sub_time_step_evolve(new_mps, dt, evolved_dt)    
+                trial_mps, error = sub_time_step_evolve(new_mps, dt, evolved_dt)
                 p = (new_mps.evolve_config.adaptive_rtol / (error + 1e-30)) ** (1/rk_config.order[0])
                 logger.debug(f"RKsolver:{rk_config.method} relative error: {error}, enlarge p parameter: {p}")
                 
                 if p < p_restart:
-                    # not accurate, will restart
+                    # not accurate, will restart from the last accepted state with a smaller step
                     new_mps.evolve_config.guess_dt = dt * max(p_min, p)
                     logger.debug(
                         f"evolution not converged, new guess_dt: {new_mps.evolve_config.guess_dt}"
                     )
                 else:
+                    new_mps = trial_mps
                     if xp.allclose(dt+evolved_dt, evolve_dt):
                         new_mps.evolve_config.guess_dt = min_abs(
                             dt * p, new_mps.evolve_config.guess_dt
